@@ -1,4 +1,5 @@
 import ProductMD.Proofs.Builders
+import ProductMD.Model.ManifestIO
 /-!
 # C12 — manifest builders file each entry exactly where the arguments say
 
@@ -1206,6 +1207,41 @@ theorem C12_dump_for_tree (h : List ExtraArgs) (v a b : Str) :
     skip
     exact C12_dump_for_tree_aux top v a b hs
   all_goals exact absurd hs (by simp [shapeAt, allVals])
+/-! ## Read-only operations leave the manifest alone -/
+
+/-- obligation on the generated fact (tools/gen_builders.py): the loop of `dump_for_tree` appends a FRESH dict per
+entry; a loop that rewrites the stored record (`item["file"] = …; append(item)`) is recognised as `.inPlace`, gets
+the mutating semantics in the model, and breaks this -/
+theorem C12_dump_for_tree_mode : Gen.dump_for_tree_mode = .copy := by decide
+
+/-- **`dump_for_tree` is an export, not an edit** — for every manifest (built or loaded, well-shaped or not), every
+variant, arch and base path, whether the base matches, does not match or only textually prefixes the stored paths,
+whether the call succeeds or raises: the manifest afterwards is identical, and the text is the documented one
+(`C12_dump_for_tree`).  Hence any sequence of exports with any bases, interleaved with adds, files and exports
+exactly what the adds alone determine. -/
+theorem C12_dump_for_tree_pure (s : PyVal) (v a b : Str) :
+    (ExtraFiles.dumpForTreeS s v a b).1 = s ∧ (ExtraFiles.dumpForTreeS s v a b).2 = dumpForTree s v a b := by
+  unfold ExtraFiles.dumpForTreeS
+  rw [C12_dump_for_tree_mode]
+  exact ⟨rfl, rfl⟩
+
+/-- a second export, with another base, sees the same manifest as the first -/
+theorem C12_dump_for_tree_twice (s : PyVal) (v a b v' a' b' : Str) :
+    (ExtraFiles.dumpForTreeS (ExtraFiles.dumpForTreeS s v a b).1 v' a' b').2 = dumpForTree s v' a' b' := by
+  rw [(C12_dump_for_tree_pure s v a b).1]
+  exact (C12_dump_for_tree_pure s v' a' b').2
+
+/-- `obj[variant]` and `dumps()` do not touch the mapping or the compose section (`dumps` sets the header version to
+the current one: the documented mutation) -/
+theorem C12_readonly_pure (k : Kind) (m : Manifest) (v : Str) :
+    (getVariant m.payload v).1 = m.payload
+    ∧ (dumps k m).1.payload = m.payload ∧ (dumps k m).1.compose = m.compose
+    ∧ ((dumps k m).1.version = m.version ∨ (dumps k m).1.version = .str currentVersion) := by
+  refine ⟨rfl, ?_, ?_, ?_⟩
+  all_goals
+    unfold dumps dumpDoc
+    cases validateClass k.className [] <;> simp [serialize]
+
 /-! ## Whatever the refusals and their order: no raise after the first mutation
 
 The executable model interprets whatever statement list the source contains.  For EVERY list that consists of
